@@ -301,12 +301,12 @@ theorem inlNodes_sound (ht : TblOK I Φ tbl) (hd : DeepOK I Φ α tbl deeper) :
       have hwf := instantiate_wf tbl ht.noident f (ht.closed op f hff) (ht.calls op f hff) attrs (substIns σ ins) st.next
         hins'
       rw [← hinst] at is1 is2 is3 is4 hwf ⊢
-      obtain ⟨dd, hdd⟩ : ∃ x, x = deeper (st.addInlined op inst.next inst.bad) inst.nodes := ⟨_, rfl⟩
-      have hdst : (st.addInlined op inst.next inst.bad).next = inst.next := rfl
+      obtain ⟨dd, hdd⟩ : ∃ x, x = deeper (st.addInlined op inst.next (inst.bad || nouts.length != f.outputs.length)) inst.nodes := ⟨_, rfl⟩
+      have hdst : (st.addInlined op inst.next (inst.bad || nouts.length != f.outputs.length)).next = inst.next := rfl
       have hov := instantiate_outvals f attrs (substIns σ ins) st.next
       rw [← hinst] at hov
       obtain ⟨d1, d2, d3, d4, d5⟩ := hd (· ∈ (substIns σ ins).filterMap id) st.next inst.nodes
-        (st.addInlined op inst.next inst.bad) ρi (by rw [hdst]; exact hwf)
+        (st.addInlined op inst.next (inst.bad || nouts.length != f.outputs.length)) ρi (by rw [hdst]; exact hwf)
       rw [← hdd] at d1 d2 d3 d4 d5 ⊢
       rw [hdst] at d1 d2 d3
       have hlen' : nouts.length ≤ (inst.outvals.map dd.2.2.app).length := by
